@@ -67,6 +67,8 @@ fn gen(prop: &str, rng: &mut Rng, n: usize) -> Vec<String> {
             for _ in 0..(n / 100).max(5) {
                 v.push(sysloop::gen_sys(rng));
             }
+            // ... and the connection bookkeeping that creates and replaces the peer records the reservations hang on
+            v.extend(sess::gen_cand(rng, (n / 50).max(10)));
             v
         }
         "C15" => bcodec::gen15(rng, n),
